@@ -145,6 +145,11 @@ func worker(t *testing.T) {
 				res.stat("determinism_same_outcomes_different_trace", 1)
 			} else {
 				res.stat("determinism_different_outcomes", 1)
+				v2 := ""
+				if r2.V != nil {
+					v2 = r2.V.Sig() + ": " + r2.V.Msg
+				}
+				emit(outLine{Kind: "nondet", I: i, Seed: rseed, Msg: fmt.Sprintf("second run of the same script: shape %d vs %d, violation %q other %q", res.Shape, r2.Shape, v2, r2.Other), Script: s})
 			}
 		}
 		l := outLine{Kind: "run", I: i, Seed: rseed, Engine: e.Name(), Res: res, Wall: time.Since(t0).Seconds()}
